@@ -1,7 +1,8 @@
 --------------------------- MODULE StreamTornGen ---------------------------
 (* Fault plans for the byte-stream transport (C09, torn-write clause): a      *)
 (* script sends NMsgs messages through rpc.NewStreamTransport (basic or       *)
-(* packed encoding, directly or under a Conn); the underlying writer accepts  *)
+(* packed encoding; directly, with all messages allocated before the first is *)
+(* sent (prealloc), or under a Conn); the underlying writer accepts           *)
 (* everything except at write call number `at`, where it accepts k bytes      *)
 (* (k = 99: all but one byte) and returns an error.  Afterwards it accepts    *)
 (* everything again, so any byte the code still writes lands on the stream.   *)
